@@ -19,6 +19,14 @@ def build(d, vs):
             return tuple(items)
         if style == "gen":
             return (x for x in items)
+        if style == "array":
+            # a cspuz array as the container (what most puzzle code passes): only for flat, homogeneous items
+            from cspuz.array import BoolArray1D, IntArray1D
+            from cspuz.expr import BoolExpr, IntExpr
+            if items and all(isinstance(x, (BoolExpr, bool)) for x in items):
+                return BoolArray1D(items)
+            if items and all(isinstance(x, (IntExpr, int)) and not isinstance(x, bool) for x in items):
+                return IntArray1D(items)
         return items
     a = [build(x, vs) for x in d["args"]]
     if f == "neg":
@@ -111,7 +119,7 @@ class Gen:
             if r.random() < 0.35:
                 j = min(len(items), i + r.randint(0, 3))
                 sub = self.nest(items[i:j]) if r.random() < 0.3 else items[i:j]
-                out.append({"f": "list", "args": sub, "style": r.choice(["list", "tuple", "gen"])})
+                out.append({"f": "list", "args": sub, "style": r.choice(["list", "tuple", "gen", "array"])})
                 i = j
             else:
                 out.append(items[i])
